@@ -23,7 +23,15 @@ def scan(repo):
                 continue
             sf = SourceFile(os.path.join(d, fn))
             for path, it in sf.all_items():
-                if it.kind != 'fn' or it.body_open < 0 or 'mod tests' in path or 'mod test' in path:
+                if 'mod tests' in path or 'mod test' in path:
+                    continue
+                lead = sf.src[it.start:it.sig_start]
+                # item-level: a constant / static whose existence or value depends on a feature, or a
+                # negated / combined feature gate (two alternative definitions), makes behaviour feature-dependent
+                if re.search(r'#\s*\[\s*cfg\s*\(', lead):
+                    if it.kind in ('const', 'static') or re.search(r'cfg\s*\(\s*(not|any)\s*\(', lead):
+                        bad.append((f'{crate}/src/{fn}', path, sf.line_of(it.sig_start), re.sub(r'\s+', ' ', lead.strip())[-80:]))
+                if it.kind != 'fn' or it.body_open < 0:
                     continue
                 nfn += 1
                 body = sf.src[it.body_open:it.end]
